@@ -431,7 +431,7 @@ where
                     // On SlowDown, a retry needs to happen with a larger poll interval.
                     DeviceCodeErrorResponseType::SlowDown => {
                         DeviceAccessTokenPollResult::ContinueWithNewPollInterval(
-                            current_interval + Duration::from_secs(5),
+                            current_interval.saturating_add(Duration::from_secs(5)),
                         )
                     }
 
